@@ -5,6 +5,7 @@ package c04
 
 import (
 	"context"
+	"crypto"
 	"fmt"
 	"sort"
 	"strings"
@@ -50,6 +51,20 @@ type Case struct {
 	// Plugin "rev-only": the signature names a verification plugin that owns only the revocation check
 	// (and answers success); the identity check stays notation's own and its verdict must not change
 	Plugin string `json:"plugin,omitempty"`
+	// LeafKey > 0: the leaf (and the warm-up leaf) is certified for the LeafKey-th key of a small pool
+	// and carries that key's subject key identifier: certificates re-issued for one key under other
+	// subjects. What a certificate says about its subject is that certificate's own affair
+	LeafKey int `json:"leafKey,omitempty"`
+	// TrustLeaf: the listed trust store holds the signing certificate itself - next to the root ("also")
+	// or alone ("only"). A certificate that is trusted directly still has to match a listed identity
+	TrustLeaf string `json:"trustLeaf,omitempty"`
+}
+
+func leafKeyOf(c Case) crypto.Signer {
+	if c.LeafKey > 0 {
+		return pki.Key("EC-256", 10+c.LeafKey)
+	}
+	return nil
 }
 
 var namedTypes = []string{"C", "ST", "O", "OU", "CN", "L", "STREET", "POSTALCODE", "SERIALNUMBER"}
@@ -269,7 +284,7 @@ func modelPass(c Case) (bool, bool) {
 func run(c Case) (authErr error, herr error) {
 	setup()
 	leaf := pki.Mint(pki.Spec{RawSubject: pki.RDNs(c.Leaf), NotBefore: caChain.Certs[1].Cert.NotBefore, NotAfter: caChain.Certs[1].Cert.NotAfter,
-		EKU: leafEKU}, caChain.Certs[1])
+		EKU: leafEKU, Key: leafKeyOf(c), SKI: c.LeafKey > 0}, caChain.Certs[1])
 	scheme, storeType := envb.SchemeX509, "ca"
 	if c.Scheme == "sa" {
 		scheme, storeType = envb.SchemeSA, "signingAuthority"
@@ -284,6 +299,12 @@ func run(c Case) (authErr error, herr error) {
 	opts := kit.Options()
 	opts.OCITrustPolicy = kit.OCIDoc("p", kit.Level{Base: "strict"}.SV(""), []string{storeType + ":x"}, ids)
 	ts := mocks.NewTrustStore().Put(storeType, "x", caChain.Root().Cert)
+	switch c.TrustLeaf {
+	case "also":
+		ts = mocks.NewTrustStore().Put(storeType, "x", caChain.Root().Cert, leaf.Cert)
+	case "only":
+		ts = mocks.NewTrustStore().Put(storeType, "x", leaf.Cert)
+	}
 	if c.Plugin == "rev-only" {
 		opts.PluginManager = &mocks.Manager{Plugins: map[string]pf.Plugin{"c04-plugin": &mocks.Plugin{Name: "c04-plugin", Version: "1.0.0",
 			Capabilities: []pf.Capability{pf.CapabilityRevocationCheckVerifier}}}}
@@ -321,7 +342,7 @@ func run(c Case) (authErr error, herr error) {
 		if wsub == nil {
 			wsub = [][]pki.AV{{{T: "C", V: "ZZ"}}, {{T: "ST", V: "warm"}}, {{T: "O", V: "warm-up org"}}}
 		}
-		wleaf := pki.Mint(pki.Spec{RawSubject: pki.RDNs(wsub), NotBefore: caChain.Certs[1].Cert.NotBefore, NotAfter: caChain.Certs[1].Cert.NotAfter, EKU: leafEKU}, caChain.Certs[1])
+		wleaf := pki.Mint(pki.Spec{RawSubject: pki.RDNs(wsub), NotBefore: caChain.Certs[1].Cert.NotBefore, NotAfter: caChain.Certs[1].Cert.NotAfter, EKU: leafEKU, Key: leafKeyOf(c), SKI: c.LeafKey > 0}, caChain.Certs[1])
 		wenv := envb.Build(envb.Spec{Format: c.Format, Payload: envb.PayloadFor(desc.MediaType, desc.Digest.String(), desc.Size, nil), ContentType: envb.PayloadType,
 			Scheme: scheme, SigningTime: leaf.Cert.NotBefore.Add(23 * 3600 * 1e9), Chain: append(x509s(wleaf), caChain.X509()[1:]...), Key: wleaf.Key})
 		v.Verify(context.Background(), desc, wenv, notation.VerifierVerifyOptions{ArtifactReference: kit.Reference(desc), SignatureMediaType: c.Format})
@@ -535,6 +556,8 @@ func identityProp(rec *stats.Recorder) func(rt *rapid.T) {
 			c.Idents = shuffled
 		}
 		c.Warm = rp.Pick(rt, "warm", "", "", "", "matching-leaf", "matching-leaf", "unrelated-leaf", "blob-same-name", "blob-same-name")
+		c.LeafKey = rp.Pick(rt, "leafKey", 0, 0, 1, 2, 3)
+		c.TrustLeaf = rp.Pick(rt, "trustLeaf", "", "", "", "also", "only")
 		c.Plugin = rp.Pick(rt, "plugin", "", "", "", "rev-only")
 		want, either := modelPass(c)
 		// classes
@@ -559,6 +582,12 @@ func identityProp(rec *stats.Recorder) func(rt *rapid.T) {
 			cl = append(cl, "either-outcome(multivalued-leaf)")
 		}
 		cl = append(cl, map[bool]string{true: "model=pass", false: "model=fail"}[want])
+		if c.TrustLeaf != "" {
+			cl = append(cl, "signing-certificate-itself-in-the-trust-store="+c.TrustLeaf)
+		}
+		if c.LeafKey > 0 {
+			cl = append(cl, "leaf-certified-for-a-key-that-other-leaves-share")
+		}
 		if c.Warm != "" {
 			cl = append(cl, "reused-verifier")
 		}
@@ -573,7 +602,7 @@ func identityProp(rec *stats.Recorder) func(rt *rapid.T) {
 			idTexts = append(idTexts, id.Text)
 		}
 		sort.Strings(idTexts)
-		rec.Case(cl, kind != "wildcard", stats.Fingerprint(fmt.Sprint(c.Leaf), strings.Join(idTexts, "|"), c.Format, c.Scheme, c.Warm, c.Plugin), func() any { return c })
+		rec.Case(cl, kind != "wildcard", stats.Fingerprint(fmt.Sprint(c.Leaf), strings.Join(idTexts, "|"), c.Format, c.Scheme, c.Warm, c.Plugin, c.LeafKey, c.TrustLeaf), func() any { return c })
 
 		authErr, herr := run(c)
 		if herr != nil {
